@@ -10,7 +10,7 @@ import Cppcms.C12.FileBuffer
 * `form <bytes>` : `parse_form_urlencoded` : return value and the pairs inserted.
 * `rq <flt> <contentType> <cl> <contentLimit> <multipartLimit> <memLimit> <diskOk> <bufSize> <query> <chunk>*` : whole request.
 * `hdrok <bytes>` : is the header block accepted as a whole, and read as what.
-* `enc <bkey> (<name> <filename> <mime> <data>)*` : `Spec.encode`.
+* `enc <bkey> (<name> <filename> <mime> <data>)*` : `Spec.encode`; `encb`: `Spec.encodeW (fun _ => true)` (empty file names written as `filename=""`).
 * `encform (<k> <v>)*` : `Spec.encodeFormWith C15.urlencode`.
 All byte strings in hex (`-` = empty). -/
 open Cppcms Cppcms.C12
@@ -133,6 +133,10 @@ def step (_ : Unit) (line : String) : Unit × String :=
                    | some m => s!"{boolStr (hdrEndsAt 0 h)} {toHex m.name},{toHex m.filename},{toHex m.mime}"
                    | none => "none")
       | none => "bad-op"
+    | "encb" :: bkey :: parts =>
+      match parseHex bkey, (hexList parts).bind parseParts with
+      | some b, some ps => toHex (Spec.encodeW (fun _ => true) b ps)
+      | _, _ => "bad-op"
     | "enc" :: bkey :: parts =>
       match parseHex bkey, (hexList parts).bind parseParts with
       | some b, some ps => toHex (Spec.encode b ps)
